@@ -21,6 +21,9 @@ def make_packages(seed, npk, per_file, files_per_pkg=1, malformed_frac=0.0, opts
                 k += 1
             files.append(dict(fname="%s.go" % "abcdef"[fi], decls=decls))
         pkgs.append(dict(name="p%d" % pi, files=files, kind="valid"))
+    # directed reproducers of the open concurrency findings: one package each (keeps `ctx` named ctx)
+    for i, kd in enumerate(declgen.known_finding_decls()):
+        pkgs.append(dict(name="kf%d" % i, files=[dict(fname="a.go", decls=[kd])], kind="valid"))
     # systematic stream (C05): all async masks x all discovery orders of 2..3 parameterless providers
     sysd = list(declgen.systematic_leaves(9000))
     for i in range(0, len(sysd), 14):
